@@ -5,6 +5,7 @@
 use std::io::{BufRead, Write};
 
 mod common;
+mod config_mode;
 mod sketch_mode;
 mod sync_mode;
 mod unsync_mode;
@@ -45,6 +46,7 @@ fn process(input: &mut dyn BufRead, out: &mut dyn Write) {
                 let cfg = parse_cfg(&toks[1..]);
                 runner = Some(match cfg.get("kind").copied() {
                     Some("sketch") => Box::new(sketch_mode::SketchRunner::default()),
+                    Some("config") => Box::new(config_mode::ConfigRunner),
                     Some("sync") => Box::new(sync_mode::SyncRunner::new(&cfg)),
                     Some("unsync") => Box::new(unsync_mode::UnsyncRunner::new(&cfg)),
                     k => panic!("unknown kind {:?}", k),
